@@ -9,6 +9,9 @@ Definition openp (pg : Z -> res (list byte)) (U : Z) (n : Z) : res page :=
   do b <- db_page pg n;
   parse_page b (n =? 1) U.
 
+(* a Go Record that is nil: no columns at all *)
+Definition nonempty (r : record) : option record := match r with [] => None | _ => Some r end.
+
 Section Low.
   Variable pg : Z -> res (list byte).   (* pager.page(n, pagesize): used for overflow pages *)
   Variable op : Z -> res page.          (* Database.openPage; [openp pg U] in every run *)
@@ -59,7 +62,9 @@ Section Low.
       index_scan_min root from (fun rec s => if search to rec then (Stop, s) else cb rec s) s.
   End CB.
 
-  (* Table.Rowid: Ok None = not found *)
+  (* Table.Rowid: Ok None = not found.  The Go function returns a nil Record for "not found"; parseRecord
+     gives a nil Record for a record without columns too (SQLite never writes one), so such a row is
+     reported as not found *)
   Definition table_rowid (root : Z) (rowid : Z) : res (option record) :=
     match open_table _ op root with
     | Err e => Err e
@@ -69,7 +74,7 @@ Section Low.
                       max_recursion p rowid None with
       | (Fail e, _) => Err e
       | (_, None) => Ok None
-      | (_, Some pl) => do rec <- load pl; Ok (Some rec)
+      | (_, Some pl) => do rec <- load pl; Ok (nonempty rec)
       end
     end.
 
